@@ -499,6 +499,7 @@ class OverhangFilter(Module):
     def _sensitivity(self, dxprint):
         x = self.sig_in[0].state
         xprint = self.sig_out[0].state
+        dxprint = dxprint.copy()  # Accumulated into below; the sensitivity of the output signal must stay untouched
         dx = np.zeros_like(dxprint)
 
         # Size of the domain
